@@ -34,15 +34,15 @@
 
    Generation: Init chooses the plan (blocks per article) and the chapter layout; AddBlock
    appends one production to the current article; Finish closes the collection.  Palette
-   selects the production set: "core" (one per construct, for exhaustive multi-article
-   enumeration), "full" (every variant once, exhaustive for single articles), "rich"
+   selects the production set: "mini" / "core" (four / eight productions, one per construct,
+   for exhaustive multi-article enumeration), "full" (every variant once, exhaustive for single articles), "rich"
    (parameterised productions, for -simulate). *)
 EXTENDS Naturals, Sequences, FiniteSets, TLC, Json
 
 CONSTANTS MaxArts,      \* 1..4
           MaxBlocks,    \* blocks per article
           MinBlocks,    \* 1 normally; = MaxBlocks to enumerate exactly-k-block articles
-          Palette,      \* "core" | "full" | "rich"
+          Palette,      \* "mini" | "core" | "full" | "rich"
           Chapters,     \* BOOLEAN: chapter layouts enumerated (FALSE: no chapters)
           EmitCases     \* TRUE: print every finished collection as JSON (P-ENUM)
 
@@ -190,13 +190,16 @@ ListShapes ==
     <<":", "::">>, <<"#", "#*", "#">>, <<";", ":", ";", ":">>, <<"*", "**", "***", "*">>, <<"#", "#:", "#">> }
 ListOf(n, shape, kind) == List([k \in 1..Len(shape) |-> Line(shape[k], <<Mk(kind, n + k - 1)>>)])
 
-Core(n) ==
+Mini(n) ==
   { P(Para(<<W(n, "n"), W(n + 1, "b"), LL(n + 2)>>), 3),
-    P(Sec(2, <<W(n, "n")>>, <<W(n + 1, "n"), RF(n + 2)>>), 3),
-    P(ListOf(n, <<"*", "**", "#">>, "n"), 3),
     P(Table(<<>>, Grid(n, 2, 2, "row")), 4),
     P(Fig(FG(1, "thumb", n, "n")), 1),
-    P(Para(<<W(n, "n"), TC("Tinl", n + 1)>>), 2),
+    P(Para(<<W(n, "n"), TC("Tinl", n + 1)>>), 2) }
+
+Core(n) ==
+  Mini(n) \cup
+  { P(Sec(2, <<W(n, "n")>>, <<W(n + 1, "n"), RF(n + 2)>>), 3),
+    P(ListOf(n, <<"*", "**", "#">>, "n"), 3),
     P(Gallery(0, 0, <<GI(1, n, "n"), GI(2, n + 1, "n")>>), 2),
     P(Tpl("Ttable", n), 1) }
 
@@ -244,14 +247,14 @@ Rich(n) ==
   \cup { P(Sec(l, <<W(n, "n")>>, <<Mk(x, n + 1), W(n + 2, "n")>>), 3) : l \in 2..4, x \in ItemKinds }
   \cup { P(ListOf(n, sh, k), Len(sh)) : sh \in ListShapes, k \in {"b", "i", "ll", "le", "ref", "Tinl", "Tif"} }
   \cup { P(Table(<<>>, <<<<a, b>>, <<c, PlainCell(n + 3)>>>>), 4) :
-           a \in CellChoices(n), b \in {PlainCell(n + 1), HeadCell(n + 1)}, c \in SomeCells(n + 2) }
+           a \in CellChoices(n), b \in {PlainCell(n + 1), HeadCell(n + 1)}, c \in {PlainCell(n + 2), FigCell(2, n + 2, "n")} }
   \cup { P(Table(<<W(n, "n")>>, <<<<a, b, PlainCell(n + 3)>>>>), 4) : a \in CellChoices(n + 1), b \in SomeCells(n + 2) }
   \cup { P(Fig(FG(i, k, n, s)), 1) : i \in Images, k \in FigKinds, s \in {"n", "b", "i"} }
   \cup { P(Gallery(IF hc THEN n + m ELSE 0, pr, [k \in 1..m |-> GI(((k + off) % 3) + 1, n + k - 1, "n")]),
            IF hc THEN m + 1 ELSE m) :
            m \in 1..4, pr \in {0, 1, 2, 3}, off \in 0..2, hc \in BOOLEAN }
 
-Blocks(n) == CASE Palette = "core" -> Core(n) [] Palette = "full" -> Full(n) [] Palette = "rich" -> Rich(n)
+Blocks(n) == CASE Palette = "mini" -> Mini(n) [] Palette = "core" -> Core(n) [] Palette = "full" -> Full(n) [] Palette = "rich" -> Rich(n)
 
 -----------------------------------------------------------------------------
 Plans  == UNION {[1..k -> MinBlocks..MaxBlocks] : k \in 1..MaxArts}
